@@ -73,6 +73,11 @@ def vqe_configs(quick):
     cf.append(C("H4muhf-fz-UCCSD-scbk", "H4-_uhf_fz", "UCCSD", "scbk", False, nthetas=3, hist=not quick))
     cf.append(C("H2muhf-UCCSD-scbk", "H2-_uhf", "UCCSD", "scbk", False, nthetas=2))
     cf.append(C("H2uhf-UCCSD-bk", "H2_uhf", "UCCSD", "bk", True, nthetas=2))
+    # warm start: simulate_options["initial_statevector"] (+ reference_state="zero"): the RDMs must be those of the state
+    # energy_estimation uses (ansatz applied to the initial statevector)
+    cf.append(C("H2-HEA-bk-initprep", "H2", "HEA", "bk", False, budget=4, nthetas=2, init="prep"))
+    cf.append(C("H2-UCCSD-jw-inithf", "H2", "UCCSD", "jw", False, nthetas=2, init="hf"))
+    cf.append(C("H2uhf-UCCSD-scbk-initprep", "H2_uhf", "UCCSD", "scbk", False, nthetas=2, init="prep"))
     # spin matrix {closed, doublet, triplet, quartet} x encodings x orderings x {ROHF, UHF}: the per-term encoding inside
     # get_rdm / get_rdm_uhf needs the spin (scBK: parity of n_alpha)
     cf.append(C("H3pT-UCCSD-scbk-alt", "H3+_t", "UCCSD", "scbk", False, nthetas=2))
@@ -144,6 +149,11 @@ def vqe_drive(chk, cfg, st, v, theta):
             s.sm1, s.sm2 = v.get_rdm(np.array(theta), sum_spin=True, **kw)
             s.so1, s.so2, s.sm1, s.sm2 = (np.array(a) for a in (s.so1, s.so2, s.sm1, s.sm2))
     except Exception as e:
+        if cfg.get("init") and not np.any(np.array(theta)) and isinstance(e, ValueError):
+            chk.violation("get_rdm:exception-empty-ansatz-circuit-with-initial-statevector:%s" % cfg["ansatz"],
+                          "%s theta=zeros: get_rdm raised %s: %s" % (cfg["name"], type(e).__name__, e), s.case)
+            s.so1 = None
+            return s
         chk.violation("get_rdm:exception:%s:%s:%s:%s:%s" % (type(e).__name__, "utd" if c08.eff_utd(cfg) else "alt",
                                                             "theta0" if not np.any(np.array(theta)) else "generic", cfg["ansatz"], cfg["mapping"]),
                       "%s theta=%s: get_rdm raised %s: %s" % (cfg["name"], s.theta, type(e).__name__, e), s.case)
@@ -649,7 +659,7 @@ def sym_h(n, rng):
     return h
 
 
-def shapes(rng):
+def shapes(rng, quick=False):
     S = []
 
     def R(name, occ, frozen):
@@ -684,6 +694,12 @@ def shapes(rng):
     R("R-virt-only", [2, 0, 0], [2])
     R("R-two-core", [2, 2, 2, 0], [0, 1])
     R("R-nothing-frozen", [2, 0, 0], [])
+    # high-spin ROHF (2 and 3 singly occupied orbitals) x frozen occupied / virtual / both
+    R("R-rohf-triplet-core", [2, 1, 1, 0], [0])
+    R("R-rohf-triplet-virt", [2, 1, 1, 0], [3])
+    R("R-rohf-triplet-both", [2, 2, 1, 1, 0], [0, 4])
+    R("R-rohf-quartet-core", [2, 1, 1, 1, 0], [0])
+    R("R-rohf-quartet-both", [2, 1, 1, 1, 0], [0, 4])
     U("U-core0", [1, 1, 0], [1, 0, 0], [0], [0])
     U("U-core0-2e", [1, 1, 0], [1, 1, 0], [0], [0])
     U("U-core0-virt3", [1, 1, 1, 0], [1, 1, 0, 0], [0, 3], [0, 3])
@@ -691,6 +707,8 @@ def shapes(rng):
     # frozen OCCUPIED sets non-empty and different per spin: nested ({0,1} / {0}) and crossed ({0,1} / {1,2})
     U("U-core-nested", [1, 1, 1, 0], [1, 1, 0, 0], [0, 1], [0, 3])
     U("U-core-crossed", [1, 1, 1, 0], [1, 1, 1, 0], [0, 1], [1, 2])
+    for sh in S:
+        sh["maxd"] = 2 if (quick and sh["nmos"] >= 5) else 99
     return S
 
 
@@ -869,7 +887,7 @@ def pad_check_record(chk, sh, mol, mol_full, rec, M=8):
 
 def part_pad(chk, rng, only=None, states=None):
     quick = chk.quick
-    S = shapes(random.Random(1234))               # shapes and integrals are fixed (replay files refer to them by name)
+    S = shapes(random.Random(1234), quick)         # shapes and integrals are fixed (replay files refer to them by name)
     if only:
         S = [s for s in S if s["name"] == only]
     d = tlc.workdir(WD + "/pad")
@@ -928,7 +946,7 @@ def efix(E):
 
 def classical_cases(quick):
     cs = [("H2", "FCI"), ("H2", "CCSD"), ("H2", "MP2"), ("LiH_fz", "FCI"), ("LiH_fz", "CCSD"), ("H2-", "FCI"), ("H2-", "CCSD"), ("H4", "FCI"), ("H4", "CCSD"),
-          ("H4", "MP2"), ("H4-_uhf_fz", "CCSD"), ("H2_uhf", "CCSD")]
+          ("H4", "MP2"), ("H4-_uhf_fz", "CCSD"), ("H2_uhf", "CCSD"), ("H4+", "MP2"), ("H2_uhf", "MP2"), ("H4+", "CCSD")]
     if not quick:
         cs += [("H4+", "FCI"), ("H4+", "CCSD"), ("LiH", "FCI"), ("LiH", "CCSD"), ("LiH", "MP2"), ("LiH_fc", "CCSD"), ("LiH_fc", "FCI"), ("H2O_fz", "CCSD"),
                ("H2O_fz", "FCI"), ("H4_uhf", "CCSD")]
@@ -951,6 +969,35 @@ def classical_molecule(key):
     raise KeyError(key)
 
 
+def frozen_singly_occupied_rule(chk, jid):
+    """Validation rule: a frozen list containing a SINGLY occupied orbital of an ROHF reference must be refused (the folded
+    integrals would treat it as doubly occupied). If it is accepted nevertheless, the RDMs must still reproduce the solver
+    energy: returns the scalar record to be judged, or None when the request was refused."""
+    from tangelo import SecondQuantizedMolecule
+    from tangelo.algorithms.classical import CCSDSolver
+    d = c08._MOLDEF["H4+"]
+    case = {"part": "classical", "mol": "H4+ frozen=[1] (singly occupied)", "solver": "CCSD", "rule": "frozen-singly-occupied"}
+    try:
+        mol = SecondQuantizedMolecule(d["xyz"], d["q"], d["spin"], basis="sto-3g", frozen_orbitals=[1])
+    except Exception as e:
+        chk.part("frozen_singly_occupied_rule", outcome="refused (%s)" % type(e).__name__)
+        return None
+    chk.part("frozen_singly_occupied_rule", outcome="ACCEPTED: energies judged")
+    try:
+        solver = CCSDSolver(mol)
+        E = float(solver.simulate())
+        g1, g2 = (np.array(x) for x in solver.get_rdm())
+        E_rdm = float(mol.energy_from_rdms(g1, g2))
+    except Exception as e:
+        chk.violation("classical:frozen-singly-occupied-accepted:exception:%s" % type(e).__name__,
+                      "ROHF molecule with a frozen singly occupied orbital was accepted and then %s" % e, case)
+        return None
+    job = {"id": jid, "kind": "scalars", "e_solver": efix(E), "e_rdm": efix(E_rdm), "trace": int(round(float(np.trace(g1).real) * 1e8)),
+           "nelec": int(mol.n_active_electrons) * 10 ** 8, "herm1": 0, "herm2": 0, "tol": 100, "tol_e": 20000}
+    case["solver"] = "frozen-singly-occupied-accepted"
+    return job, (case, E, E_rdm, float(np.trace(g1).real), 0., 0.)
+
+
 def part_classical(chk, cases=None):
     from tangelo.algorithms.classical import FCISolver, CCSDSolver, MP2Solver
     cls = {"FCI": FCISolver, "CCSD": CCSDSolver, "MP2": MP2Solver}
@@ -964,15 +1011,27 @@ def part_classical(chk, cases=None):
             g1, g2 = solver.get_rdm()
         except Exception as e:
             if sk == "MP2" and isinstance(e, RuntimeError) and "not implemented" in str(e):
-                continue          # documented: MP2 RDMs are not offered with frozen orbitals
+                fm = mol.frozen_mos
+                really_frozen = fm is not None and (any(len(f) for f in fm) if mol.uhf else len(fm) > 0)
+                if really_frozen:
+                    continue      # documented: MP2 RDMs are not offered with frozen orbitals
+                chk.violation("classical:MP2-UHF-unfrozen:exception", "%s/%s: get_rdm refuses a molecule WITHOUT frozen orbitals: %s" % (mk, sk, e), case)
+                continue
             chk.violation("classical:exception:%s:%s" % (sk, type(e).__name__), "%s/%s: %s" % (mk, sk, e), case)
             continue
+        case["rohf"] = bool(not mol.uhf and mol.spin != 0)
         if mol.uhf:
             E_rdm = float(mol.energy_from_rdms(g1, g2))
             tr = float(sum(np.trace(np.array(x)) for x in g1))
             herm1 = max(float(np.max(np.abs(np.array(x) - np.array(x).T))) for x in g1)
             herm2 = max(float(np.max(np.abs(np.array(x) - np.array(x).transpose(1, 0, 3, 2)))) for x in g2)
         else:
+            if not (isinstance(g1, np.ndarray) and g1.ndim == 2 and isinstance(g2, np.ndarray) and g2.ndim == 4):
+                E_bad = float(np.real(mol.energy_from_rdms(g1, g2))) if True else None
+                chk.violation("classical:%s%s:rdm-format" % (sk, "-ROHF" if case["rohf"] else ""),
+                              "%s/%s: a restricted molecule gets RDMs that are not (n,n) / (n,n,n,n) arrays (%s); energy_from_rdms gives %.6f, solver energy %.6f" % (
+                                  mk, sk, type(g1).__name__, E_bad, E), case)
+                continue
             g1, g2 = np.array(g1), np.array(g2)
             E_rdm = float(mol.energy_from_rdms(g1, g2))
             tr = float(np.trace(g1).real)
@@ -985,6 +1044,12 @@ def part_classical(chk, cases=None):
                      "nelec": int(mol.n_active_electrons) * 10 ** 8, "herm1": int(round(herm1 * 1e8)), "herm2": int(round(herm2 * 1e8)),
                      "tol": 100, "tol_e": tol_e})
         meta[jid] = (case, E, E_rdm, tr, herm1, herm2)
+    if cases is None:
+        jid = len(jobs) + 1
+        r = frozen_singly_occupied_rule(chk, jid)
+        if r is not None:
+            jobs.append(r[0])
+            meta[jid] = r[1]
     if not jobs:
         return 0
     ctl = copy.deepcopy(jobs[0])
@@ -1002,7 +1067,8 @@ def part_classical(chk, cases=None):
         case, E, E_rdm, tr, h1, h2 = meta[j["id"]]
         chk.add_traces(1, "classical_scalars")
         if verdicts[j["id"]] != "ok":
-            chk.violation("classical:%s:%s" % (case["solver"], verdicts[j["id"]]),
+            lab = case["solver"] + ("-ROHF" if (case["solver"] == "MP2" and case.get("rohf")) else "")
+            chk.violation("classical:%s:%s" % (lab, verdicts[j["id"]]),
                           "%s/%s: E_solver=%.10f E(rdm)=%.10f tr=%.8f |g1-g1^T|=%.2e |g2-g2^T|=%.2e" % (case["mol"], case["solver"], E, E_rdm, tr, h1, h2), case)
     chk.part("classical_observational", records=len(jobs), note="recorded-scalar invariants judged by C13Trace; NO independent oracle",
              negative_controls_rejected=2)
@@ -1052,6 +1118,42 @@ def part_pipeline(chk, cases=(("LiH_fc", "CCSD"), ("H4-_uhf_fz", "CCSD"), ("LiH_
     return n
 
 
+def part_noisy_smoke(chk):
+    """Smoke check of the noisy branch of get_rdm / get_rdm_uhf (noise model with zero error rate, 20000 shots, fixed numpy
+    seed): the call must succeed; the electron count and the RDM energy must be within a loose sampling band (0.1) of
+    the noise-free values. Not an exact claim - it keeps the branch executable."""
+    from tangelo.linq.noisy_simulation import NoiseModel
+    from tangelo.algorithms.variational import VQESolver, BuiltInAnsatze
+    n = 0
+    for mk, uhf in (("H2", False), ("H2_uhf", True)):
+        mol = c08.molecule(mk)
+        case = {"part": "noisy", "mol": mk}
+        nm = NoiseModel()
+        nm.add_quantum_error("CNOT", "depol", 0.0)
+        np.random.seed(chk.seed)
+        th = [0.3, 0.2] if not uhf else None
+        try:
+            v = VQESolver({"molecule": mol, "ansatz": BuiltInAnsatze.UCCSD, "qubit_mapping": "scbk", "up_then_down": False, "initial_var_params": "random",
+                           "backend_options": {"target": "cirq", "n_shots": 20000, "noise_model": nm}})
+            v.build()
+            v0 = VQESolver({"molecule": mol, "ansatz": BuiltInAnsatze.UCCSD, "qubit_mapping": "scbk", "up_then_down": False, "initial_var_params": "random"})
+            v0.build()
+            th = np.full(len(v.initial_var_params), 0.3)
+            E0 = float(np.real(v0.energy_estimation(th)))
+            g1, g2 = v.get_rdm_uhf(th) if uhf else v.get_rdm(th)
+            E = float(mol.energy_from_rdms(g1, g2))
+            tr = float(sum(np.trace(np.array(x)).real for x in g1)) if uhf else float(np.trace(g1).real)
+        except Exception as e:
+            chk.violation("get_rdm:noisy-branch:exception:%s" % type(e).__name__, "%s: get_rdm%s with a noise model raised %s: %s" % (
+                mk, "_uhf" if uhf else "", type(e).__name__, e), case)
+            continue
+        n += 1
+        if abs(tr - mol.n_active_electrons) > 0.1 or abs(E - E0) > 0.1:
+            chk.violation("get_rdm:noisy-branch:value", "%s: tr = %.4f (electrons %d), E(rdm) = %.4f, noise-free energy %.4f" % (mk, tr, mol.n_active_electrons, E, E0), case)
+    chk.part("noisy_branch_smoke", executed=n, note="zero-rate noise model, 20000 shots, band 0.1: executable-branch check only")
+    return n
+
+
 # ======================================================================================================
 def run(chk):
     rng = random.Random(chk.seed)
@@ -1071,6 +1173,7 @@ def run(chk):
     if "classical" not in skip:
         n += part_classical(chk)
         n += part_pipeline(chk)
+        n += part_noisy_smoke(chk)
     chk.add_eval(n, n)
     chk.cov["rule"] = ("(i) VQE: configurations (molecule x ansatz x encoding x ordering) x grid parameter vectors, every measured RDM entry exact; "
                        "(ii) padding: every integer-amplitude state over the chosen support x every shape (restricted/ROHF/unrestricted, frozen "
@@ -1117,6 +1220,13 @@ def replay(chk, rec):
         r = replay_rdm_history(cfg, st, v, holder, case["history"], {"cur": None, "opt": None})
         print("  history replay:", r)
         return r is None and not c2.violations
+    elif case.get("rule"):
+        part_classical(c2)           # the validation-rule record is part of the default classical run
+    elif case["part"] == "noisy":
+        part_noisy_smoke(c2)
+        for key, detail, _ in c2.violations:
+            print("  %s: %s" % (key, detail))
+        return not c2.violations
     elif case["part"] == "pipeline":
         part_pipeline(c2, cases=[(case["mol"], case["solver"])])
     else:
